@@ -10,7 +10,7 @@ mkdir -p "$work/repo"
 (cd /repo && tar --exclude=./target --exclude=./.git -cf - .) | (cd "$work/repo" && tar xf -)
 (cd "$work/repo" && git init -q . && git apply "$patch") || { echo "MUTANT-RUN: patch does not apply"; exit 3; }
 mkdir -p "$work/verif"
-(cd /verif && tar --exclude=./.git --exclude=./replay --exclude=./.cache/ocaml --exclude='./.cache/*.lock' -cf - .) | (cd "$work/verif" && tar xf -)
+(cd /verif && tar --ignore-failed-read --warning=no-file-changed --exclude=./.git --exclude=./replay --exclude=./.cache/ocaml --exclude='./.cache/*.lock' -cf - .) | (cd "$work/verif" && tar xf -)
 for f in "$work"/verif/harness*/Cargo.toml; do sed -i "s#/repo/#$work/repo/#g" "$f"; done
 cd "$work/verif"
 rc=0
